@@ -187,6 +187,10 @@ impl Report {
         *self.dist.entry(key.to_string()).or_insert(0) += n;
     }
     pub fn fail(&mut self, f: Failure) {
+        if self.failures.iter().any(|g| g.kind == f.kind && g.name == f.name && g.signature == f.signature && g.case == f.case) {
+            *self.fail_counts.entry(format!("{}:{}:{}", f.kind, f.name, f.signature)).or_insert(0) += 1;
+            return;
+        }
         let key = format!("{}:{}:{}", f.kind, f.name, f.signature);
         let c = self.fail_counts.entry(key).or_insert(0);
         *c += 1;
